@@ -176,8 +176,8 @@ enum OrcS {
     None,
     /// FileContext::from: None = Err, Some(mode 0 all / 1 one_pass / 2 none, sort, plugins (name, has commands))
     Open(Option<(u8, bool, Vec<(String, bool)>)>),
-    /// StreamContext::from: None = Err, Some(one_pass, window start, end, #pos, #neg, #event)
-    Stream(Option<(bool, u64, u64, u64, u64, u64)>),
+    /// StreamContext::from: None = Err, Some(one_pass, window start, end, #pos, #neg, #event, filter class: 1 all messages match, 2 none)
+    Stream(Option<(bool, u64, u64, u64, u64, u64, u64)>),
     /// id commands: does process_stream_search_params accept the body
     Id(bool),
     /// plugin_cmd / fs: 0 bad json, 1 not an object, 2 members missing, 3 good(name); process_fs_cmd ok
@@ -190,7 +190,7 @@ impl OrcS {
             OrcS::Open(None) => json!({"k": "open_err"}),
             OrcS::Open(Some((m, s, p))) => json!({"k": "open_ok", "mode": m, "sort": s, "plugins": p}),
             OrcS::Stream(None) => json!({"k": "stream_err"}),
-            OrcS::Stream(Some((o, a, b, p, n, e))) => json!({"k": "stream_ok", "one_pass": o, "ws": a, "we": b, "np": p, "nn": n, "ne": e}),
+            OrcS::Stream(Some((o, a, b, p, n, e, k))) => json!({"k": "stream_ok", "one_pass": o, "ws": a, "we": b, "np": p, "nn": n, "ne": e, "fclass": k}),
             OrcS::Id(b) => json!({"k": "id", "search_ok": b}),
             OrcS::Json(s, n, f) => json!({"k": "json", "shape": s, "name": n, "fs_ok": f}),
         }
@@ -212,6 +212,7 @@ impl OrcS {
                 v["np"].as_u64().unwrap(),
                 v["nn"].as_u64().unwrap(),
                 v["ne"].as_u64().unwrap(),
+                v["fclass"].as_u64().unwrap_or(0),
             ))),
             "id" => OrcS::Id(v["search_ok"].as_bool().unwrap()),
             "json" => OrcS::Json(v["shape"].as_u64().unwrap() as u8, v["name"].as_str().unwrap().to_string(), v["fs_ok"].as_bool().unwrap()),
@@ -229,7 +230,7 @@ impl OrcS {
                 clist(&p.iter().map(|(n, c)| format!("({}, {})", cstr(n), cbool(*c))).collect::<Vec<_>>())
             ),
             OrcS::Stream(None) => "(os StreamErr)".into(),
-            OrcS::Stream(Some((o, a, b, p, n, e))) => format!("(os (StreamOk {} {} {} {} {} {}))", cbool(*o), a, b, p, n, e),
+            OrcS::Stream(Some((o, a, b, p, n, e, k))) => format!("(os (sk {} {} {} {} {} {} {}))", cbool(*o), a, b, p, n, e, k),
             OrcS::Id(b) => format!("(oi {} {})", cbool(*b), nmsgs),
             OrcS::Json(s, n, f) => {
                 let shape = match s {
@@ -430,8 +431,14 @@ fn params_of(frame: &str) -> &str {
     it.next().unwrap_or("")
 }
 
+#[derive(Clone, Debug)]
+enum Ev {
+    Msgs(u32),
+    Done(u32),
+}
+
 struct CmdResult {
-    pre_done: Vec<u32>,
+    pre: Vec<Ev>,
     nmsgs: u32,
     reply: Option<String>, // None: no reply (dead connection / timeout)
     reply_ms: u128,
@@ -635,27 +642,27 @@ const OPEN_ERR: &[&str] = &[
     r#"{"files":["@A"],"plugins":[3]}"#,
     r#"@A"#,
 ];
-// (body, one_pass, start, end, pos, neg, event)
-const STREAM_OK: &[(&str, bool, u64, u64, u64, u64, u64)] = &[
-    ("{}", false, 0, 20, 0, 0, 0),
-    (r#"{"window":[0,3]}"#, false, 0, 3, 0, 0, 0),
-    (r#"{"window":[2,7],"binary":true}"#, false, 2, 7, 0, 0, 0),
-    (r#"{"window":[5,3],"binary":true}"#, false, 5, 3, 0, 0, 0),
-    (r#"{"window":[0,0]}"#, false, 0, 0, 0, 0, 0),
-    (r#"{"window":[100,200],"binary":true}"#, false, 100, 200, 0, 0, 0),
-    (r#"{"window":[0,100000],"binary":true}"#, false, 0, 100000, 0, 0, 0),
-    (r#"{"window":["a",null]}"#, false, 0, 20, 0, 0, 0),
-    (r#"{"window":[-1,1.5]}"#, false, 0, 20, 0, 0, 0),
-    (r#"{"window":[18446744073709551615,18446744073709551615]}"#, false, 18446744073709551615, 18446744073709551615, 0, 0, 0),
-    (r#"{"filters":[{"type":0,"ecu":"ECUR"}],"binary":true}"#, false, 0, 20, 1, 0, 0),
-    (r#"{"filters":[{"type":0,"ecu":"ECUR"},{"type":1,"ecu":"NONE"},{"type":3,"ecu":"ECUR"},{"type":2,"ecu":"ECUR"}],"window":[0,4],"binary":true}"#, false, 0, 4, 1, 1, 1),
-    (r#"{"filters":[{"type":0,"ecu":"XXXX"}],"window":[0,4]}"#, false, 0, 4, 1, 0, 0),
-    (r#"{"filters":[{"type":0,"ecu":"ECUR","enabled":false}]}"#, false, 0, 20, 0, 0, 0),
-    (r#"{"filters":[]}"#, false, 0, 20, 0, 0, 0),
-    (r#"{"one_pass":true,"binary":true}"#, true, 0, 20, 0, 0, 0),
-    (r#"{"one_pass":"yes","sort":"time","type":"snapshot"}"#, false, 0, 20, 0, 0, 0),
-    ("5", false, 0, 20, 0, 0, 0),
-    ("[]", false, 0, 20, 0, 0, 0),
+// (body, one_pass, start, end, pos, neg, event, filter class)
+const STREAM_OK: &[(&str, bool, u64, u64, u64, u64, u64, u64)] = &[
+    ("{}", false, 0, 20, 0, 0, 0, 0),
+    (r#"{"window":[0,3]}"#, false, 0, 3, 0, 0, 0, 0),
+    (r#"{"window":[2,7],"binary":true}"#, false, 2, 7, 0, 0, 0, 0),
+    (r#"{"window":[5,3],"binary":true}"#, false, 5, 3, 0, 0, 0, 0),
+    (r#"{"window":[0,0]}"#, false, 0, 0, 0, 0, 0, 0),
+    (r#"{"window":[100,200],"binary":true}"#, false, 100, 200, 0, 0, 0, 0),
+    (r#"{"window":[0,100000],"binary":true}"#, false, 0, 100000, 0, 0, 0, 0),
+    (r#"{"window":["a",null]}"#, false, 0, 20, 0, 0, 0, 0),
+    (r#"{"window":[-1,1.5]}"#, false, 0, 20, 0, 0, 0, 0),
+    (r#"{"window":[18446744073709551615,18446744073709551615]}"#, false, 18446744073709551615, 18446744073709551615, 0, 0, 0, 0),
+    (r#"{"filters":[{"type":0,"ecu":"ECUR"}],"binary":true}"#, false, 0, 20, 1, 0, 0, 1),
+    (r#"{"filters":[{"type":0,"ecu":"ECUR"},{"type":1,"ecu":"NONE"},{"type":3,"ecu":"ECUR"},{"type":2,"ecu":"ECUR"}],"window":[0,4],"binary":true}"#, false, 0, 4, 1, 1, 1, 1),
+    (r#"{"filters":[{"type":0,"ecu":"XXXX"}],"window":[0,4]}"#, false, 0, 4, 1, 0, 0, 2),
+    (r#"{"filters":[{"type":0,"ecu":"ECUR","enabled":false}]}"#, false, 0, 20, 0, 0, 0, 0),
+    (r#"{"filters":[]}"#, false, 0, 20, 0, 0, 0, 0),
+    (r#"{"one_pass":true,"binary":true}"#, true, 0, 20, 0, 0, 0, 0),
+    (r#"{"one_pass":"yes","sort":"time","type":"snapshot"}"#, false, 0, 20, 0, 0, 0, 0),
+    ("5", false, 0, 20, 0, 0, 0, 0),
+    ("[]", false, 0, 20, 0, 0, 0, 0),
 ];
 const STREAM_ERR: &[&str] = &["", "{", "x", r#"{"window":[1]}"#, r#"{"window":[1,2,3]}"#, r#"{"window":5}"#, r#"{"window":"0,5"}"#, r#"{"filters":3}"#, r#"{"filters":[{"type":99}]}"#, r#"{"filters":[3]}"#, r#"{"filters":{}}"#];
 const SEARCH_OK: &[&str] = &[
@@ -785,15 +792,25 @@ fn gen_cmd(rng: &mut Rng, cfg: &GenCfg, tr: &Tracker, files: &Files, pos: usize)
             }
         }
         10..=17 => ((*rng.pick(&["close", "close", "close ", "close now", "close {}"])).to_string(), OrcS::None),
-        18..=24 => ((*rng.pick(&["pause", "resume", "pause ", "resume x", "pause {\"a\":1}"])).to_string(), OrcS::None),
+        18..=24 => ((*rng.pick(if cfg.one_pass { &["resume", "resume", "resume", "pause", "resume x"] } else { &["pause", "resume", "pause ", "resume x", "pause {\"a\":1}"] })).to_string(), OrcS::None),
         25..=44 => {
             let c = if rng.chance(2, 3) { "stream" } else { "query" };
             if rng.chance(1, 5) {
                 let b = rng.pick(STREAM_ERR);
                 (if b.is_empty() && rng.chance(1, 2) { c.to_string() } else { format!("{} {}", c, b) }, OrcS::Stream(None))
             } else {
-                let t = if cfg.one_pass && rng.chance(3, 4) { &STREAM_OK[15] } else { rng.pick(STREAM_OK) };
-                (format!("{} {}", c, t.0), OrcS::Stream(Some((t.1, t.2, t.3, t.4, t.5, t.6))))
+                let t = if cfg.one_pass {
+                    // one-pass sessions: unfiltered streams only (the model does not cover searches on drained messages)
+                    if rng.chance(3, 4) {
+                        &STREAM_OK[15]
+                    } else {
+                        let unf: Vec<&(&str, bool, u64, u64, u64, u64, u64, u64)> = STREAM_OK.iter().filter(|t| t.4 + t.5 + t.6 == 0).collect();
+                        *rng.pick(&unf)
+                    }
+                } else {
+                    rng.pick(STREAM_OK)
+                };
+                (format!("{} {}", c, t.0), OrcS::Stream(Some((t.1, t.2, t.3, t.4, t.5, t.6, t.7))))
             }
         }
         45..=54 => {
@@ -813,7 +830,11 @@ fn gen_cmd(rng: &mut Rng, cfg: &GenCfg, tr: &Tracker, files: &Files, pos: usize)
         }
         65..=74 => {
             let id = pick_id(rng);
-            let w = rng.pick(BINSEARCH);
+            let mut w = rng.pick(BINSEARCH);
+            while cfg.one_pass && w.contains("ndex=") {
+                // index lookups depend on which messages are still held (drained ones are gone)
+                w = rng.pick(BINSEARCH);
+            }
             (if w.is_empty() { format!("stream_binary_search {}", id) } else { format!("stream_binary_search {} {}", id, w) }, OrcS::Id(false))
         }
         75..=84 => {
@@ -883,7 +904,7 @@ fn run_session(plan: Plan, scratch: &Path, tag: &str) -> SessionResult {
     };
     let mut tr = Tracker::default();
     let mut dead: Option<String> = None;
-    let mut pending_done: Vec<u32> = vec![];
+    let mut pending: Vec<Ev> = vec![];
     let (fixed, mut gen) = match plan {
         Plan::Fixed(v) => (Some(v), None),
         Plan::Gen(r, c, f) => (None, Some((r, c, f))),
@@ -893,10 +914,13 @@ fn run_session(plan: Plan, scratch: &Path, tag: &str) -> SessionResult {
         (_, Some((_, c, _))) => c.len + 1,
         _ => 0,
     };
-    let handle_async = |a: Async, tr: &mut Tracker, pending_done: &mut Vec<u32>| match a {
-        Async::FileInfo(n) => tr.nmsgs = n,
+    let handle_async = |a: Async, tr: &mut Tracker, pending: &mut Vec<Ev>| match a {
+        Async::FileInfo(n) => {
+            tr.nmsgs = n;
+            pending.push(Ev::Msgs(n));
+        }
         Async::Done(id) => {
-            pending_done.push(id);
+            pending.push(Ev::Done(id));
             tr.live.retain(|x| !(x.0 == id && !x.1));
         }
         _ => {}
@@ -914,7 +938,7 @@ fn run_session(plan: Plan, scratch: &Path, tag: &str) -> SessionResult {
             _ => unreachable!(),
         };
         if dead.is_some() {
-            res.results.push(CmdResult { pre_done: vec![], nmsgs: tr.nmsgs, reply: None, reply_ms: 0, dead: dead.clone() });
+            res.results.push(CmdResult { pre: vec![], nmsgs: tr.nmsgs, reply: None, reply_ms: 0, dead: dead.clone() });
             res.cmds.push(cmd);
             continue;
         }
@@ -923,7 +947,7 @@ fn run_session(plan: Plan, scratch: &Path, tag: &str) -> SessionResult {
         while Instant::now() < until && dead.is_none() {
             match rx_one(&mut ws) {
                 Rx::Timeout => {}
-                Rx::Async(a) => handle_async(a, &mut tr, &mut pending_done),
+                Rx::Async(a) => handle_async(a, &mut tr, &mut pending),
                 Rx::Reply(s) => res.extra_replies.push(s),
                 Rx::Closed(e) => dead = Some(e),
             }
@@ -941,7 +965,7 @@ fn run_session(plan: Plan, scratch: &Path, tag: &str) -> SessionResult {
                     reply = Some(s);
                     break;
                 }
-                Rx::Async(a) => handle_async(a, &mut tr, &mut pending_done),
+                Rx::Async(a) => handle_async(a, &mut tr, &mut pending),
                 Rx::Timeout => {
                     if t0.elapsed() > Duration::from_secs(20) {
                         dead = Some("no reply within 20 s".into());
@@ -951,7 +975,7 @@ fn run_session(plan: Plan, scratch: &Path, tag: &str) -> SessionResult {
             }
         }
         let reply_ms = t0.elapsed().as_millis();
-        let pre_done = std::mem::take(&mut pending_done);
+        let pre = std::mem::take(&mut pending);
         let nmsgs = tr.nmsgs;
         if let Some(r) = &reply {
             let cls = classify_reply(r);
@@ -960,7 +984,7 @@ fn run_session(plan: Plan, scratch: &Path, tag: &str) -> SessionResult {
         } else {
             res.violations.push(("one_reply".into(), format!("frame {:?}: no reply ({})", cmd.frame, dead.clone().unwrap_or_default())));
         }
-        res.results.push(CmdResult { pre_done, nmsgs, reply, reply_ms, dead: dead.clone() });
+        res.results.push(CmdResult { pre, nmsgs, reply, reply_ms, dead: dead.clone() });
         res.cmds.push(cmd);
     }
     // late frames: an additional reply would be a second answer to some command
@@ -1001,7 +1025,11 @@ fn record(sink: &mut Sink, res: &SessionResult, kind: &str) {
     let mut obs_cmds = vec![];
     let mut tags = vec![format!("kind_{}", kind)];
     for (c, r) in res.cmds.iter().zip(res.results.iter()) {
-        items.push(format!("it {} {} {}", cnums(&r.pre_done), cstr(&c.frame), c.orc.coq(r.nmsgs)));
+        let pre: Vec<String> = r.pre.iter().map(|e| match e {
+            Ev::Msgs(n) => format!("TMsgs {}", n),
+            Ev::Done(id) => format!("TDone {}", id),
+        }).collect();
+        items.push(format!("it {} {} {}", clist(&pre), cstr(&c.frame), c.orc.coq(r.nmsgs)));
         let o = match &r.reply {
             Some(s) => match classify_reply(s) {
                 Some(o) => {
@@ -1016,7 +1044,7 @@ fn record(sink: &mut Sink, res: &SessionResult, kind: &str) {
             },
             None => O::T(vec![O::L(9)]),
         };
-        if !r.pre_done.is_empty() {
+        if r.pre.iter().any(|e| matches!(e, Ev::Done(_))) {
             tags.push("event_query_done".into());
         }
         obs_cmds.push(o);
@@ -1071,7 +1099,7 @@ fn fixed(cmds: &[(u64, &str, OrcS)], files: &Files) -> Vec<Cmd> {
 fn corpus(files: &Files) -> Vec<(&'static str, Vec<Cmd>)> {
     let open_a = OrcS::Open(Some((0, false, vec![])));
     let open_1p = OrcS::Open(Some((1, false, vec![])));
-    let st = |o: bool, a: u64, b: u64, p: u64| OrcS::Stream(Some((o, a, b, p, 0, 0)));
+    let st = |o: bool, a: u64, b: u64, p: u64| OrcS::Stream(Some((o, a, b, p, 0, 0, if p > 0 { 1 } else { 0 })));
     vec![
         // fixed defects (witnesses of known_findings.d/C15.json "fixed")
         (
@@ -1222,6 +1250,41 @@ fn corpus(files: &Files) -> Vec<(&'static str, Vec<Cmd>)> {
     ]
 }
 
+/// structured histories under collect:one_pass_streams (ids are predictable in a fresh process): streams
+/// before / after the messages were drained, window changes, then ordinary commands
+fn one_pass_scenario(rng: &mut Rng, files: &Files, k: u64) -> Vec<Cmd> {
+    let mut v: Vec<(u64, String, OrcS)> = vec![];
+    let st = |a: u64, b: u64| OrcS::Stream(Some((true, a, b, 0, 0, 0, 0)));
+    v.push((0, r#"open {"files":["@A"],"collect":"one_pass_streams"}"#.into(), OrcS::Open(Some((1, false, vec![])))));
+    let n_pre = rng.below(3);
+    for _ in 0..n_pre {
+        let (a, b) = *rng.pick(&[(0u64, 3u64), (0, 20), (2, 7), (12, 15), (0, 0)]);
+        v.push((0, format!(r#"stream {{"one_pass":true,"binary":true,"window":[{},{}]}}"#, a, b), st(a, b)));
+    }
+    v.push((0, "resume".into(), OrcS::None));
+    let settle = 300 + rng.below(150);
+    match rng.below(5) {
+        0 => v.push((settle, r#"stream {"one_pass":true,"binary":true}"#.into(), st(0, 20))),
+        1 => {
+            let w = *rng.pick(&["0,5", "3,4", "9,12", "10,20", "12,15", "0,0", "5,3"]);
+            v.push((settle, format!("stream_change_window 1 {}", w), OrcS::Id(false)));
+        }
+        2 => {
+            v.push((settle, "stop 1".into(), OrcS::Id(false)));
+            v.push((0, r#"query {"one_pass":true,"window":[0,2]}"#.into(), st(0, 2)));
+        }
+        3 => v.push((settle, r#"stream {"one_pass":true,"window":[10,12]}"#.into(), st(10, 12))),
+        _ => v.push((settle, "stream_binary_search 1 time_ms=5".into(), OrcS::Id(false))),
+    }
+    v.push((250, "pause".into(), OrcS::None));
+    v.push((0, "close".into(), OrcS::None));
+    v.push((0, r#"open {"files":["@A"]}"#.into(), OrcS::Open(Some((0, false, vec![])))));
+    v.push((200, r#"stream {"window":[0,3],"binary":true}"#.into(), OrcS::Stream(Some((false, 0, 3, 0, 0, 0, 0)))));
+    v.push((0, "close".into(), OrcS::None));
+    v.push((0, format!("zz_sentinel_p{}", k), OrcS::None));
+    v.into_iter().map(|(s, f, o)| Cmd { sleep_ms: s, frame: files.subst(&f), orc: o }).collect()
+}
+
 fn main() {
     let argv: Vec<String> = std::env::args().collect();
     if argv.len() >= 3 && argv[1] == "--script" {
@@ -1264,10 +1327,14 @@ fn main() {
     }
     let mut rng = Rng::new(a.seed);
     for k in 0..n_gen {
-        let r = rng.fork();
+        let mut r = rng.fork();
         let kind = k % 10;
-        let cfg = GenCfg { big: kind == 3 || kind == 7, one_pass: false, len: if kind == 9 { 40 } else { 12 + (k as usize % 3) * 6 }, malformed_bias: kind == 5 };
-        plans.push((if cfg.big { "gen_big".into() } else if cfg.malformed_bias { "gen_malformed".into() } else { "gen".into() }, Plan::Gen(r, cfg, &files)));
+        if kind == 8 {
+            plans.push(("gen_one_pass_scenario".into(), Plan::Fixed(one_pass_scenario(&mut r, &files, k))));
+            continue;
+        }
+        let cfg = GenCfg { big: kind == 3 || kind == 7, one_pass: kind == 6, len: if kind == 9 { 40 } else { 12 + (k as usize % 3) * 6 }, malformed_bias: kind == 5 };
+        plans.push((if cfg.big { "gen_big".into() } else if cfg.malformed_bias { "gen_malformed".into() } else if cfg.one_pass { "gen_one_pass".into() } else { "gen".into() }, Plan::Gen(r, cfg, &files)));
     }
     // run `par` sessions at a time, results in plan order
     let mut idx = 0usize;
